@@ -194,6 +194,20 @@ def build_harness(name, race=False):
 
 
 def run_engine(eng, seed, n, tier, tag, replay=None, extra=None, timeout=3000):
+    """runs harness + model driver; a run whose harness PROCESS died (crash, not a reported violation) is repeated once:
+    a deterministic crash recurs and is reported, a one-off (scheduler-dependent harness race under load) is recorded
+    in the result as `retried_after` and does not raise an alarm by itself."""
+    r = _run_engine(eng, seed, n, tier, tag, replay, extra, timeout)
+    if r["error"] and r["error"].startswith("harness "):
+        first = r["error"]
+        log(f"harness {eng['harness']} died in run {tag}; repeating the run once")
+        r = _run_engine(eng, seed, n, tier, tag, replay, extra, timeout)
+        if not r["error"]:
+            r["retried_after"] = first[-400:]
+    return r
+
+
+def _run_engine(eng, seed, n, tier, tag, replay=None, extra=None, timeout=3000):
     """runs harness + model driver; returns dict(stats, diffs=[(lineno, op, impl, model)], ops_path, error)"""
     hb = os.path.join(BUILD, "h_" + eng["harness"])
     base = os.path.join(BUILD, f"{eng['harness']}_{CUR_PROP}_{tag}")  # per property: engines shared by several properties must not clobber each other
@@ -240,6 +254,22 @@ def case_of(ops_lines, k, delim):
     while s > 0 and not ops_lines[s].startswith(delim):
         s -= 1
     return ops_lines[s:k + 1]
+
+
+class build_lock:
+    """serialises the build phase (fact regeneration, lake build, audit, harness and driver builds) between checks
+    that run at the same time: they share lean/.lake and .build."""
+    def __enter__(self):
+        import fcntl
+        os.makedirs(BUILD, exist_ok=True)
+        self.f = open(os.path.join(BUILD, "build.lock"), "w")
+        fcntl.flock(self.f, fcntl.LOCK_EX)
+        return self
+
+    def __exit__(self, *a):
+        import fcntl
+        fcntl.flock(self.f, fcntl.LOCK_UN)
+        self.f.close()
 
 
 # ---------------------------------------------------------------- known findings
